@@ -917,6 +917,11 @@ type BinaryOpNode struct {
 
 func (n *BinaryOpNode) String() string {
 	var prec = binaryPrecedence[n.Name]
+	if n.Name == "?:" {
+		// ?: groups from the right, at the level of the ternary: a ternary or
+		// another ?: needs parentheses as its left operand, none as its right.
+		return operand(n.Arg1, precOr, false) + " ?: " + n.Arg2.String()
+	}
 	return operand(n.Arg1, prec, false) + " " + n.Name + " " + operand(n.Arg2, prec, true)
 }
 
@@ -1020,7 +1025,7 @@ type TernNode struct {
 }
 
 func (n *TernNode) String() string {
-	return operand(n.Arg1, precElvis, false) + " ? " + n.Arg2.String() + " : " + n.Arg3.String()
+	return operand(n.Arg1, precOr, false) + " ? " + n.Arg2.String() + " : " + n.Arg3.String()
 }
 
 func (n *TernNode) Children() []Node {
